@@ -7,6 +7,7 @@ import (
 	"fmt"
 	"go/types"
 	"strings"
+	"time"
 )
 
 type vfile struct {
@@ -279,6 +280,15 @@ func init() {
 							return in.newError("gcfg: unsupported field type")
 						}
 					default:
+						// time.Time implements encoding.TextUnmarshaler (RFC 3339)
+						if named, ok := sst.Field(i).Type().(*types.Named); ok && named.Obj().Pkg() != nil && named.Obj().Pkg().Path() == "time" && named.Obj().Name() == "Time" {
+							t, err := time.Parse(time.RFC3339, val)
+							if err != nil {
+								return in.newError("gcfg: invalid time")
+							}
+							sec[i] = in.timeFromNative(t)
+							break
+						}
 						return in.newError("gcfg: unsupported field type")
 					}
 				}
